@@ -14,6 +14,8 @@ def parseOp (t : List String) : Option Op :=
   | ["copyAssign", d, s] => do pure (.copyAssign (← d.toNat?) (← s.toNat?))
   | ["moveAssign", d, s] => do pure (.moveAssign (← d.toNat?) (← s.toNat?))
   | ["write", i, k, v] => do pure (.write (← i.toNat?) (← k.toNat?) (← v.toNat?))
+  | ["convert", d, s] => do pure (.convert (← d.toNat?) (← s.toNat?))
+  | ["dumpLoad", d, s] => do pure (.dumpLoad (← d.toNat?) (← s.toNat?))
   | _ => none
 partial def loop (h : IO.FS.Stream) (s : AState) (c : CState) : IO Unit := do
   let line ← h.getLine
